@@ -336,3 +336,158 @@ func keywordInjectiveRule(w *World, r *Report, rule string) {
 	}
 	r.floor(rule, "returns of NewKeyword", n, 1)
 }
+
+// scannerErrorRule: the reader relies on the scanner for well-formed tokens (string, raw-string and keyword
+// tokens that include their delimiters).  The scanner only promises that for tokens it scanned without raising
+// its error count, so the tokenizer must give up on the first error: nothing resets the count, and no path from
+// the "count != 0" branch hands a token on.
+func scannerErrorRule(w *World, r *Report, rule string) {
+	r.rule(rule, "the tokenizer returns an error as soon as the scanner's error count is non-zero: no assignment to the count, and no path from the error branch reaches the place where a token is appended (the slices the reader takes of string tokens are only in range for tokens the scanner accepted)")
+	tk := w.Fn("reader", "tokenize")
+	if tk == nil {
+		r.undecided(rule, nil, "tokenize", token.NoPos, "function no longer resolves")
+		return
+	}
+	n := 0
+	isErrCount := func(v ssa.Value) bool {
+		ld, ok := v.(*ssa.UnOp)
+		if !ok || ld.Op != token.MUL {
+			return false
+		}
+		fa, ok := ld.X.(*ssa.FieldAddr)
+		return ok && fieldName(fa.X.Type(), fa.Field) == "ErrorCount"
+	}
+	// blocks that hand a token on: stores into Token structs / appends of tokens
+	tokenBlocks := map[*ssa.BasicBlock]bool{}
+	for _, f := range w.withPkgHelpers(tk) {
+		for _, b := range f.Blocks {
+			for _, in := range b.Instrs {
+				if st, ok := in.(*ssa.Store); ok {
+					if fa, ok := st.Addr.(*ssa.FieldAddr); ok && isTokenStruct(fa.X.Type()) && fieldName(fa.X.Type(), fa.Field) == "Value" {
+						tokenBlocks[b] = true
+					}
+					if fa, ok := st.Addr.(*ssa.FieldAddr); ok && fieldName(fa.X.Type(), fa.Field) == "ErrorCount" {
+						n++
+						r.bad(rule, f, "assignment to the scanner's error count", st.Pos(), "the error count is reset: tokens of input the scanner rejected (unterminated or malformed literals) reach the reader, whose slices assume well-formed tokens")
+					}
+				}
+			}
+		}
+	}
+	for _, b := range tk.Blocks {
+		iff := blockIf(b)
+		if iff == nil {
+			continue
+		}
+		bo, ok := iff.Cond.(*ssa.BinOp)
+		if !ok || (bo.Op != token.NEQ && bo.Op != token.EQL && bo.Op != token.GTR) {
+			continue
+		}
+		if !isErrCount(bo.X) && !isErrCount(bo.Y) {
+			continue
+		}
+		n++
+		errEdge := 0
+		if bo.Op == token.EQL {
+			errEdge = 1
+		}
+		// no path from the error edge to a token block
+		leak := false
+		seen := map[*ssa.BasicBlock]bool{}
+		work := []*ssa.BasicBlock{b.Succs[errEdge]}
+		for len(work) > 0 {
+			cur := work[len(work)-1]
+			work = work[:len(work)-1]
+			if seen[cur] {
+				continue
+			}
+			seen[cur] = true
+			if tokenBlocks[cur] {
+				leak = true
+				break
+			}
+			work = append(work, cur.Succs...)
+		}
+		r.check(!leak, rule, tk, "branch taken when the scanner reported an error", iff.Pos(), "always ends in an error return", "after the scanner reported an error a token can still be handed to the reader: the reader's slices of string tokens are out of range for a token that is just an opening quote")
+	}
+	r.floor(rule, "tests of the scanner's error count", n, 1)
+}
+
+// printerRules: (1) one escaper: every string that is part of a printed value - top level, element, map key,
+// set member - is printed by Pr_str's own string branch; no other quoting function (strconv.Quote, %q) and no
+// key printed without passing through Pr_str; (2) the printer keeps no state: it assigns no package-level variable.
+func printerRules(w *World, r *Report, rule string) {
+	r.rule(rule, "strings inside printed values are all printed by the one string branch of Pr_str whose escapes the reader undoes: hash-map keys and set members reach the output only through Pr_str, no function of package printer uses another quoting routine (strconv.Quote*, %q), and the printer assigns no package-level variable (PRINT may run in several evaluations at once)")
+	prStr := w.Fn("printer", "Pr_str")
+	if prStr == nil {
+		r.undecided(rule, nil, "Pr_str", token.NoPos, "function no longer resolves")
+		return
+	}
+	n := 0
+	for _, fn := range w.pkgFuncs("printer") {
+		for _, b := range fn.Blocks {
+			for _, in := range b.Instrs {
+				switch x := in.(type) {
+				case *ssa.Store:
+					if g, ok := x.Addr.(*ssa.Global); ok && fn.Name() != "init" && !strings.HasPrefix(g.Name(), "init$") {
+						n++
+						r.bad(rule, fn, "assignment to package variable "+g.Name(), x.Pos(), "the printer keeps state in a package-level variable: concurrent PRINTs share and overwrite it")
+					}
+					if ia, ok := x.Addr.(*ssa.IndexAddr); ok {
+						if ld, ok := ia.X.(*ssa.UnOp); ok {
+							if g, ok := ld.X.(*ssa.Global); ok {
+								n++
+								r.bad(rule, fn, "write into package variable "+g.Name(), x.Pos(), "the printer writes into storage held by a package-level variable: concurrent PRINTs share and overwrite it")
+							}
+						}
+					}
+				case *ssa.Call:
+					if c := x.Call.StaticCallee(); c != nil {
+						if fnPkgPath(c) == "strconv" && strings.Contains(c.Name(), "Quote") {
+							n++
+							r.bad(rule, fn, "call of strconv."+c.Name(), x.Pos(), "Go quoting escapes tab, CR, control and non-printable characters in ways the reader does not undo: such strings do not read back")
+						}
+						if fnPkgPath(c) == "fmt" && len(x.Call.Args) > 0 {
+							if f, ok := constString(x.Call.Args[0]); ok && strings.Contains(f, "%q") {
+								n++
+								r.bad(rule, fn, "format verb %q", x.Pos(), "Go quoting is not the reader's escape table")
+							}
+						}
+					}
+				case *ssa.Next:
+					// range over a map with string keys: the key goes to the output only through Pr_str
+					if x.IsString {
+						continue
+					}
+					for _, ref := range *x.Referrers() {
+						ex, ok := ref.(*ssa.Extract)
+						if !ok || ex.Index != 1 || !isStringVal(ex) {
+							continue
+						}
+						for _, u := range *ex.Referrers() {
+							n++
+							okUse := false
+							switch uu := u.(type) {
+							case *ssa.MakeInterface:
+								okUse = true
+								for _, u2 := range *uu.Referrers() {
+									c, isCall := u2.(*ssa.Call)
+									if _, isDbg := u2.(*ssa.DebugRef); isDbg {
+										continue
+									}
+									if !isCall || c.Call.StaticCallee() != prStr {
+										okUse = false
+									}
+								}
+							case *ssa.DebugRef, *ssa.Lookup:
+								okUse = true
+							}
+							r.check(okUse, rule, fn, "use of a map key / set member while printing", instrPos(u), "handed to Pr_str", "a key or member is printed without going through Pr_str's string branch: its escaping is not the reader's")
+						}
+					}
+				}
+			}
+		}
+	}
+	r.floor(rule, "uses of map keys and set members in the printer", n, 2)
+}
